@@ -711,6 +711,53 @@ def many_signatures_cases(mon: Monitor, ctx):
         ctx.count("many_signature_bases")
 
 
+def long_run_cases(mon: Monitor, ctx):
+    """more than 2^16 verifications in one process, valid and tampered tokens interleaved: the verdict of the N-th call is that of the first"""
+    j = J.load()
+    rng = ctx.rng
+    key = key_for("HS256")
+    jk = j.key(key)
+    rk = RefKey.from_jwk(key)
+    n = 70000 if ctx.tier == "quick" else 300000
+    good = [rjws.compact({"alg": "HS256"}, b'{"n":%d}' % i, rk) for i in range(50)]
+    wrong_accept = wrong_reject = 0
+    first = None
+    for i in range(n):
+        t = good[i % 50]
+        if i % 3:
+            # tampered: one signature character replaced
+            pos = len(t) - 1 - (i % 40)
+            orig = t
+            t = t[:pos] + ("A" if t[pos] != "A" else "B") + t[pos + 1:]
+            try:
+                j.jws.deserialize_compact(t, jk, algorithms=["HS256"])
+                # a replaced last character may leave the decoded octets unchanged (its unused bits)
+                if b64u_dec_lenient(t.split(".")[2]) != b64u_dec_lenient(orig.split(".")[2]):
+                    wrong_accept += 1
+                    first = first or ("accepted-tampered", i, t)
+            except Exception:
+                pass
+        else:
+            try:
+                if j.jws.deserialize_compact(t, jk, algorithms=["HS256"]).payload != b'{"n":%d}' % (i % 50):
+                    raise ValueError("payload")
+            except Exception:
+                wrong_reject += 1
+                first = first or ("rejected-valid", i, t)
+        if i % 5000 == 0 and ctx.out_of_time():
+            n = i
+            break
+    ctx.count("long_run_calls", n)
+    ctx.ev()
+    ctx.nontrivial(("long-run", n))
+    if wrong_accept:
+        ctx.violation("long-run:tampered-accepted", f"{wrong_accept} of {n} verifications in one process returned a tampered HS256 token, the first at call #{first[1]}",
+                      {"family": "long-run", "call": first[1], "token": first[2], "keys": [key], "allow": ["HS256"], "entry": "jws.deserialize_compact", "detail": "", "form": "compact"})
+    if wrong_reject:
+        ctx.violation("long-run:valid-rejected", f"{wrong_reject} of {n} verifications in one process refused a valid HS256 token, the first at call #{first[1]}",
+                      {"family": "long-run", "call": first[1], "token": first[2], "keys": [key], "allow": ["HS256"], "entry": "jws.deserialize_compact", "detail": "", "form": "compact"})
+
+
 def crit_nonstrict_cases(mon: Monitor, ctx):
     """RFC 7797 token (b64:false, crit) whose payload text is itself base64url, offered to the plain RFC 7515 entry points
     configured with strict_check_header=False: the signed payload is the text, so returning the decoded octets would be wrong."""
@@ -755,6 +802,7 @@ def plan(tier):
     items.append(("confusion", "", 0))
     items.append(("crit-nonstrict", "", 0))
     items.append(("many-signatures", "", 0))
+    items.append(("long-run", "", 0))
     return items
 
 
@@ -814,6 +862,11 @@ def run_shard(ctx):
             continue
         if alg == "many-signatures":
             many_signatures_cases(mon, ctx)
+            continue
+        if alg == "long-run":
+            mon.tr.stop()          # the tracer costs more than the calls here; the boundary verdict is what is judged
+            long_run_cases(mon, ctx)
+            mon.tr = Tracer(_select).start()
             continue
         base, other = build(alg, form, variant, ctx.rng)
         ctx.count("base_tokens")
